@@ -35,9 +35,31 @@ ASSUMPTIONS = ['CPython reference counting + gc.collect() after every release ev
                'chunk files are observed through tempdir= and a pinned tempfile.tempdir; file names are not compared']
 
 
+class Unpicklable(object):
+    """A cell value that cannot be written to a chunk file (stable repr, so worlds stay comparable)."""
+
+    def __reduce__(self):
+        raise TypeError('this cell cannot be pickled')
+
+    def __repr__(self):
+        return 'Unpicklable()'
+
+    def __eq__(self, other):
+        return isinstance(other, Unpicklable)
+
+    def __hash__(self):
+        return 7
+
+
 def _tables(cfg, fail):
     n = cfg['n']
-    t1 = FailingTable(C.HEADERS['g'], C.rows('g', n), fail)
+    rows = C.rows('g', n)
+    up = cfg.get('unpick')
+    if up is not None and 1 <= up <= n:
+        # the failure happens while a chunk is being WRITTEN (not while the source is read)
+        r = rows[up - 1]
+        rows[up - 1] = (r[0], r[1], Unpicklable())
+    t1 = FailingTable(C.HEADERS['g'], rows, fail)
     return t1
 
 
@@ -328,6 +350,15 @@ def _cfgs(tier):
     sortcfgs(2, 1 if quick else None)
     if not quick:
         sortcfgs(3, 1, warms=('cold',))
+    # a row that cannot be pickled: the pass dies while a chunk file is being written
+    for b in (1, 2):
+        for up in (1, 2):
+            for cache in (True, False):
+                out.append({'op': 'sort', 'n': 2, 'b': b, 'cache': cache, 'fail': None, 'unpick': up, 'k': 2,
+                            'warm': 'cold', 'bound': 1 if quick else None})
+    for name in ('join', 'distinct', 'aggregate(multi)', 'mergesort', 'complement'):
+        out.append({'op': name, 'n': 2, 'b': 1, 'cache': True, 'fail': None, 'unpick': 2, 'k': 2, 'warm': 'cold',
+                    'bound': 0 if quick else 1, 'cfgdefault': False})
     for n in (1, 2):
         out.append({'op': 'sort(reverse)', 'n': n, 'b': 1, 'cache': True, 'fail': None, 'k': 2, 'warm': 'cold',
                     'bound': None if n == 1 else 1})
@@ -386,7 +417,7 @@ def cost(item):
 
 def bounds(tier, seed):
     return {'operators': list(OPS), 'iterators': '<=2 all interleavings; 3 with deviation bound',
-            'nrows': '0..2 quick, 0..3 thorough', 'buffersize': '1..n+1', 'events': 'open/next/drop/dropview'}
+            'nrows': '0..2 quick, 0..3 thorough', 'buffersize': '1..n+1', 'failure_kinds': 'source raises at row f (every pass); a row that cannot be pickled (chunk write fails)', 'events': 'open/next/drop/dropview'}
 
 
 def run_item(item, acc):
